@@ -171,7 +171,34 @@ var corpus = []func(o *hx.Out, k int){
 		h.gcl(4)
 		h.checkRetained(h.m.View(), true)
 	},
-	// 9, 10: state-sync restore of a trie with the same sub-trie at two paths, flushed to a copying
+	// 9: state jump (seed C11-m5): a module at genesis is cleaned, the sync point's trie (a leaf at
+	// three positions) restored with a persist before every node and JumpToState; the next block
+	// removes two copies and a key: in ModeGC the dropped nodes must be marked inactive with the
+	// height, the sync point's root stays readable; collection, restart, more blocks; a replica that
+	// processed the blocks itself must hold the same records
+	func(o *hx.Out, k int) {
+		p := newPairM("gc", "copy")
+		defer p.Close()
+		h := newHist(o, k, "gc", p)
+		h.probes = probes("1201", "1202", "3401", "5601")
+		h.block(0, B("7701=ee", "1201=aa"))
+		h.persist()
+		r := prng.New(5)
+		h.jump(p, 5, map[string][]byte{"\x12\x01": {0xaa}, "\x12\x02": {0xaa}, "\x34\x01": {0xbb}, "\x56\x01": {0xaa}}, r, 1)
+		h.block(6, B("1201=del", "3401=del"))
+		h.cmpReplica(p)
+		h.block(7, B("1202=del", "5601=cc"))
+		h.cmpReplica(p)
+		h.gcl(5)
+		h.cmpReplica(p)
+		h.gc(6)
+		h.cmpReplica(p)
+		h.reset()
+		h.block(8, B("1201=aa"))
+		h.cmpReplica(p)
+		h.checkRetained(h.m.View(), true)
+	},
+	// 10, 11: state-sync restore of a trie with the same sub-trie at two paths, flushed to a copying
 	// persistent layer before every restoration; then copies are removed and everything is read
 	func(o *hx.Out, k int) { corpusRestore(o, k, "copy") },
 	func(o *hx.Out, k int) { corpusRestore(o, k, "bolt") },
